@@ -2,8 +2,10 @@ import PubModel.C19.Theorems
 open PubModel.C19
 #print axioms round_order_free
 #print axioms layer_mono
+#print axioms layer_mono_map
 #print axioms check_iff
 #print axioms check_total
+#print axioms check_rejects
 #print axioms cycle_real
 #print axioms cycle_min
 #print axioms cycle_reported
